@@ -524,7 +524,7 @@ func (st *ccState) onWrite(b []byte, to net.Addr) {
 	tx.doneT = tx.t
 	if cfg.slowWrite && c.caller == 0 && st.tape.Coin(1, 2) {
 		d := pick(st.tape, cfg.T/4, cfg.T, cfg.T*7/2)
-		st.conn.NextWriteDelay = d
+		st.conn.SetWriteDelay(d)
 		tx.doneT = tx.t + d
 		s.Fault("slow-write")
 	}
